@@ -104,6 +104,14 @@ func regPrelude(pkg string) {
 		}
 		return nil
 	})
+	simple(p+"vExpect", func(s *State, a []Value) Value {
+		// like vAssert, but the path continues even when the condition cannot hold
+		c := s.asExpr(a[0])
+		msg := str(a[1])
+		stats.asserts[msg]++
+		s.check(c, "assert", msg)
+		return nil
+	})
 	simple(p+"vCover", func(s *State, a []Value) Value {
 		l := str(a[0])
 		if s.covers == nil {
